@@ -200,6 +200,19 @@ def install(ip, units):
         return TRUE if {k: v for k, v in want.items() if v != 0} == have else FALSE
     ip.natives[('Quantity', 'check')] = check
 
+    def q_getattr(ip2, o, args, kwargs, node):
+        nm = args[0].v
+        if nm in ('magnitude', 'm'):
+            r = Num(o.attrs['m'], 'scalar')
+            r.maybe_int = bool(o.attrs.get('ityp'))
+            return r
+        if nm in ('units', 'u'):
+            return _q(N.NF.const(1), o.attrs['u'], True)
+        if nm == 'dimensionless':
+            return TRUE if not units.to_base(o.attrs['u'])[1] else FALSE
+        raise Unsupported('attribute %s of a pint Quantity is not modelled' % nm, node)
+    ip.natives[('Quantity', '__getattr__')] = q_getattr
+
     def rdiv(ip2, o, args, kwargs, node):
         t, _ = ip2.term_of(args[0], node)
         return _q(t / o.attrs['m'], {k: -v for k, v in o.attrs['u'].items()})
@@ -289,14 +302,28 @@ def rule_conversions(ctx, rule='R17.d'):
                 ctx.violation(rule, construct, 'missing', 'documented conversion method does not exist')
                 continue
             try:
-                ip, units, o = make_converter(ctx.prog, ec_unit)
-                ip.declare('x')
-                ip.declare('diam')
-                args = [Num(N.sym('x'))] + ([Num(N.sym('diam'))] if meth == 'toVolumeFraction' else [])
-                for a_ in args:
-                    a_.maybe_int = True         # the caller may pass an integer-dtype array
-                e0 = len(ip.events)
-                res = ip.call(ip.find_method(o, meth), args, {})
+                def run_scalar(preset, meth=meth, ec_unit=ec_unit):
+                    ip_, units_, o_ = make_converter(ctx.prog, ec_unit)
+                    ip_.preset = list(preset)
+                    ip_.declare('x')
+                    ip_.declare('diam')
+                    args_ = [Num(N.sym('x'))] + ([Num(N.sym('diam'))] if meth == 'toVolumeFraction' else [])
+                    for a_ in args_:
+                        a_.maybe_int = True         # the caller may pass an integer-dtype array
+                    e0_ = len(ip_.events)
+                    res_ = ip_.call(ip_.find_method(o_, meth), args_, {})
+                    return ip_, {'units': units_, 'o': o_, 'e0': e0_, 'res': res_}
+                worlds_ = explore(run_scalar, keep_raised=True)
+                # a path that raises only under a condition on the argument's value (if x < 0: raise ...) is a refusal of
+                # that input, not a failure of the conversion; the value-independent path is the one that is checked
+                normal_ = [(d_, i_, w_) for d_, i_, w_ in worlds_ if i_ is not None]
+                uncond_ = [w_ for d_, i_, w_ in worlds_ if i_ is None and not d_]
+                if uncond_:
+                    raise uncond_[0]
+                if len(normal_) != 1:
+                    raise Unsupported('%d normally returning paths depend on the value of the argument' % len(normal_))
+                _, ip, w_ = normal_[0]
+                units, o, e0, res = w_['units'], w_['o'], w_['e0'], w_['res']
             except Raised as e:
                 n += 1
                 key = 'raises:%s' % e.exc
@@ -305,6 +332,24 @@ def rule_conversions(ctx, rule='R17.d'):
             except Unsupported as e:
                 ctx.undecided(rule, construct, '%s: %s' % (tag, e), m.loc())
                 continue
+            # the same conversion with an array argument: a scalar-only construct (`if x < 0:`) raises for arrays of more
+            # than one element although it works for scalars
+            try:
+                ipa, unitsa, oa = make_converter(ctx.prog, ec_unit)
+                ipa.declare('x')
+                ipa.declare('diam')
+                aargs = [Num(N.sym('x'), 'array')] + ([Num(N.sym('diam'))] if meth == 'toVolumeFraction' else [])
+                for a_ in aargs:
+                    a_.maybe_int = True
+                ipa.call(ipa.find_method(oa, meth), aargs, {})
+            except Raised as e_:
+                n += 1
+                ctx.violation('R17.l', construct, 'array-argument:' + tag,
+                              '%s: the conversion works for a scalar but raises %s for an array argument (%s): it does not work '
+                              'elementwise' % (tag, e_.exc, (e_.msg or '')[:110]), m.loc())
+                continue
+            except Unsupported:
+                pass
             n += 1
             inpl = [e for e in ip.events[e0:] if e['kind'] in ('inplace-int', 'inplace-on-argument')]
             if inpl:
